@@ -13,7 +13,7 @@ import (
 
 // history operations
 type hop struct {
-	kind   byte // 'R' run, 'P' two concurrent runs, 'E' bump+evict
+	kind   byte // 'R' run, 'P' two concurrent runs, 'E' bump+evict, 'Q' run concurrent with bump+evict
 	s1, s2 []int
 	node   int
 }
@@ -24,6 +24,8 @@ func (o hop) String() string {
 		return fmt.Sprintf("Run%v", o.s1)
 	case 'P':
 		return fmt.Sprintf("Run%v||Run%v", o.s1, o.s2)
+	case 'Q':
+		return fmt.Sprintf("Run%v||Evict(%d)", o.s1, o.node)
 	default:
 		return fmt.Sprintf("Evict(%d)", o.node)
 	}
@@ -54,6 +56,19 @@ func c33Alphabet(n int) []hop {
 	}
 	for i := 0; i < n; i++ {
 		a = append(a, hop{kind: 'E', node: i})
+	}
+	return a
+}
+
+// concurrent operations explored with interleavings
+func c33Concurrent(n int) []hop {
+	var a []hop
+	a = append(a, hop{kind: 'P', s1: []int{0}, s2: []int{0}}, hop{kind: 'P', s1: []int{0}, s2: []int{1}}, hop{kind: 'P', s1: []int{0, 1}, s2: []int{1}})
+	for i := 0; i < n; i++ {
+		a = append(a, hop{kind: 'Q', s1: []int{0}, node: i})
+		if i > 0 {
+			a = append(a, hop{kind: 'Q', s1: []int{1}, node: i})
+		}
 	}
 	return a
 }
@@ -129,41 +144,53 @@ func runC33(h *hx.H) {
 				if n <= 3 || variant == 0 {
 					rec()
 				}
-				// (b) interleavings of short histories with a concurrent pair or an eviction
+				// (b) interleavings: [warm-up run] ; concurrent operation ; [checking run]
 				if edges == 0 {
 					continue
 				}
-				for _, a := range alpha {
-					for _, b := range append([]hop{{}}, alpha...) {
-						hh := []hop{a}
-						if b.kind != 0 {
-							hh = append(hh, b)
-						}
-						interesting := false
-						for _, o := range hh {
-							if o.kind == 'P' {
-								interesting = true
+				var runsOnly []hop
+				for _, o := range alpha {
+					if o.kind == 'R' {
+						runsOnly = append(runsOnly, o)
+					}
+				}
+				var hists [][]hop
+				for _, r := range runsOnly {
+					if maxKids >= 2 {
+						hists = append(hists, []hop{r}) // a single run already forks
+					}
+				}
+				for _, c := range c33Concurrent(n) {
+					for _, pre := range append([]hop{{}}, runsOnly...) {
+						for _, post := range append([]hop{{}}, runsOnly...) {
+							var hh []hop
+							if pre.kind != 0 {
+								hh = append(hh, pre)
 							}
+							hh = append(hh, c)
+							if post.kind != 0 {
+								hh = append(hh, post)
+							}
+							if c.kind == 'Q' && post.kind == 0 {
+								continue // the effect of the eviction shows in the next run
+							}
+							if n == 4 && (pre.kind != 0 && post.kind != 0) {
+								continue
+							}
+							hists = append(hists, hh)
 						}
-						if len(hh) == 2 && hh[0].kind == 'R' && hh[1].kind == 'E' {
-							continue // nothing runs after the eviction
+					}
+				}
+				for _, hh := range hists {
+					for par := 1; par <= 3; par++ {
+						if h.Expired() || h.TooMany() {
+							return
 						}
-						if len(hh) == 1 && a.kind == 'R' && maxKids >= 2 {
-							interesting = true // a single run already forks
-						}
-						if !interesting {
+						if !h.Thorough() && par == 3 && len(hh) == 3 {
 							continue
 						}
-						if n == 4 && !(len(hh) == 1) {
-							continue
-						}
-						for par := 1; par <= 3; par++ {
-							if h.Expired() || h.TooMany() {
-								return
-							}
-							name := fmt.Sprintf("C33/il/n%d/%s/par%d/%s", n, w0.String(), par, histString(hh))
-							h.Explore(hx.Scn{Name: name, Bounds: tape.B(pb, 0, 0, 1), Prune: true, Body: c33Body(mk, hh, par)})
-						}
+						name := fmt.Sprintf("C33/il/n%d/%s/par%d/%s", n, w0.String(), par, histString(hh))
+						h.Explore(hx.Scn{Name: name, Bounds: tape.B(pb, 0, 0, 1), Prune: true, Body: c33Body(mk, hh, par)})
 					}
 				}
 			}
@@ -240,6 +267,89 @@ func c33Body(mk func() *world, hist []hop, par int) func(r *tape.Run) {
 					}
 					coop.Point("join", func() bool { return pending == 0 })
 					runs = append(runs, res...)
+				case 'Q':
+					// a Run concurrent with bump+Evict must behave like one of the two orders
+					runIdx++
+					idx := runIdx
+					var rr *runResult
+					pending := 2
+					cachedBefore := cached
+					verBefore := w.version
+					coop.Go(func() {
+						rr = doRun(w, ex, idx, op.s1)
+						pending--
+					})
+					coop.Go(func() {
+						ex.EvictWithCleanup([]any{nodeKey{op.node}}, func() { w.version[op.node] += 100 })
+						pending--
+					})
+					coop.Point("join", func() bool { return pending == 0 })
+					if rr == nil || rr.panicked != nil || rr.err != nil || len(rr.res) != len(op.s1) {
+						fail("run-failed", "%s: the Run did not return results", op)
+						return
+					}
+					verAfter := w.version
+					cl := w.closure(op.s1)
+					ok := false
+					for order := 0; order < 2 && !ok; order++ {
+						c := cachedBefore
+						evict := func() {
+							if c[op.node] {
+								for j := 0; j < w.n; j++ {
+									if w.reaches(j, op.node) {
+										c[j] = false
+									}
+								}
+							}
+						}
+						if order == 0 { // Evict ; Run
+							evict()
+							w.version = verAfter
+						} else { // Run ; Evict
+							w.version = verBefore
+						}
+						match := true
+						for i := 0; i < w.n; i++ {
+							want := 0
+							if cl[i] && !c[i] {
+								want = 1
+							}
+							if len(w.execs[i])-before[i] != want {
+								match = false
+							}
+							if cl[i] {
+								c[i] = true
+							}
+						}
+						for k, res := range rr.res {
+							if res.Fatal != nil || res.Value != w.eval(op.s1[k]) {
+								match = false
+							}
+						}
+						if order == 1 {
+							evict()
+						}
+						if match {
+							ok = true
+							cached = c
+						}
+					}
+					w.version = verAfter
+					if !ok {
+						var ex2 []int
+						for i := 0; i < w.n; i++ {
+							ex2 = append(ex2, len(w.execs[i])-before[i])
+						}
+						fail("run-evict-not-serializable", "%s: executions %v and values %v match neither Evict;Run nor Run;Evict", op, ex2, func() []int {
+							var v []int
+							for _, r := range rr.res {
+								v = append(v, r.Value)
+							}
+							return v
+						}())
+						return
+					}
+					continue
 				case 'E':
 					w.version[op.node] += 100
 					ex.Evict(nodeKey{op.node})
